@@ -1,4 +1,5 @@
 import DimodModel.Enumerate
+import DimodModel.EnumPost
 import DimodModel.Wire
 open Wire Enum
 
@@ -15,6 +16,11 @@ open Wire Enum
                                                → `l=v,l=v@energy|…` sorted (exact child)
     pscale <spin> <s> ; ignored ; poly         → same, via polyScaleSample with an exact child
     pfixed <spin> <skipConst> ; poly ; fixed   → same, via polyFixedSample with an exact child
+    reindex ; first ; labels ; row             → row re-indexed to `first` (`_as_samples_iterator`)
+    pis <spin> <S|B|-> <none|tile|random> <n|-> ; labels ; rows ; fresh ; lin ; quad ; off → `ok rows` / `err` (parse_initial_states)
+    trunc <n> <byEnergy> <aggregate> ; rows `v.v@e@occ|…`  → rows (Truncate / PolyTruncate composite)
+    struct ; nodes ; edges ; lin ; quad        → 1 | 0 (bqm_structured)
+    sa <spin> ; lin ; quad ; off ; spins       → rows with energies (SimulatedAnnealingSampler assembly)
     expand ; reds+ ; init                      → `l=v,…` sorted (`expand_initial_state`); reds+ = `u&v&p[&aux&cu&cv&cp],…`
     poly   = `bias@l&l&l|…`   fixed/lin = `l=v,…`   quad = `u&v=b,…`   reds = `u&v&p,…` -/
 
@@ -146,6 +152,42 @@ def answer (line : String) : String :=
     | some reds, some init =>
       String.intercalate "," (sortStr ((expandInitialState reds init).map fun (l, v) => showLabel l ++ "=" ++ showRat v))
     | _, _ => "bad"
+  | ["reindex"] =>
+    match parseLabels (field parts 1) ",", parseLabels (field parts 2) ",", (sepBy "." (field parts 3)).mapM parseRat? with
+    | some first, some labels, some row => String.intercalate "." ((reindexRow first labels row).map showRat)
+    | _, _, _ => "bad"
+  | ["pis", spin, ssp, gen, nr] =>
+    match parseLabels (field parts 1) ",", (sepBy "|" (field parts 2)).mapM (fun r => (sepBy "." r).mapM parseRat?),
+          (sepBy "|" (field parts 3)).mapM (fun r => (sepBy "." r).mapM parseRat?),
+          parseAssign (field parts 4), parseQuad (field parts 5), parseRat? (field parts 6) with
+    | some labels, some rows, some fresh, some lin, some quad, some off =>
+      let g : Generator := if gen = "none" then .none else if gen = "tile" then .tile else .random
+      let sp : Option Bool := if ssp = "S" then some true else if ssp = "B" then some false else none
+      match parseInitialStates ⟨spin = "1", lin, quad, off⟩ labels rows sp g nr.toNat? fresh with
+      | .ok out => "ok " ++ String.intercalate "|" (out.map showRow)
+      | .error _ => "err"
+    | _, _, _, _, _, _ => "bad"
+  | ["trunc", n, be, agg] =>
+    match n.toNat?, (sepBy "|" (field parts 1)).mapM (fun r => match r.splitOn "@" with
+        | [vs, e, o] => do let vs ← (sepBy "." vs).mapM parseRat?; let e ← parseRat? e; let o ← o.toNat?; pure (ORow.mk vs e o)
+        | _ => none) with
+    | some n, some rows =>
+      let out := truncateComposite n (be = "1") (agg = "1") rows
+      if field parts 2 = "energies" then String.intercalate "|" (out.map fun r => showRat r.energy)
+      else String.intercalate "|" (out.map fun r =>
+        String.intercalate "." (r.vals.map showRat) ++ "@" ++ showRat r.energy ++ "@" ++ toString r.occ)
+    | _, _ => "bad"
+  | ["struct"] =>
+    match parseLabels (field parts 1) ",", (sepBy "," (field parts 2)).mapM (fun t => match t.splitOn "&" with
+            | [a, b] => do let a ← parseLabel? a; let b ← parseLabel? b; pure (a, b)
+            | _ => none), parseAssign (field parts 3), parseQuad (field parts 4) with
+    | some nodes, some edges, some lin, some quad => if structureOK nodes edges ⟨true, lin, quad, 0⟩ then "1" else "0"
+    | _, _, _, _ => "bad"
+  | ["sa", spin] =>
+    match parseAssign (field parts 1), parseQuad (field parts 2), parseRat? (field parts 3),
+          (sepBy "|" (field parts 4)).mapM parseAssign with
+    | some lin, some quad, some off, some spins => String.intercalate "|" ((saAssemble ⟨spin = "1", lin, quad, off⟩ spins).map showRow)
+    | _, _, _, _ => "bad"
   | ["pfixed", spin, sk] =>
     match parsePoly (field parts 1), parseAssign (field parts 2) with
     | some p, some fx => showRows (polyFixedSample (sk = "1") (exactPoly (spin = "1")) p fx)
